@@ -229,3 +229,97 @@ Print Assumptions C19_reexp_C02_hull_inplace_4x4_finite.
 Theorem C19_reexp_C02_hull_inplace_3x4_finite : ltac:(let t := type of Centro.Props.C02.C02_hull_label_grid_3x4_finite in exact t).
 Proof. exact Centro.Props.C02.C02_hull_label_grid_3x4_finite. Qed.
 Print Assumptions C19_reexp_C02_hull_inplace_3x4_finite.
+
+(* ================================================================== round 2 *)
+(* Full: reduction_transfer as written (column read p_j[j_idx], finding F1, included): no index
+   depends on a float comparison; under kernel_pre_rt no read of ii / j / idx / count / x / c / v and
+   no write of v / u leaves its array. *)
+Theorem C19_reduction_transfer_safe : forall ii jj idx count x ulen vlen clen,
+  kernel_pre_rt ii jj idx count x ulen vlen clen = true ->
+  reduction_transfer ii jj idx count x ulen vlen clen <> None.
+Proof. exact rt_safe. Qed.
+Print Assumptions C19_reduction_transfer_safe.
+
+(* Full relative to the oracle discipline: augmenting_row_reduction with ALL its reads (idx, count,
+   jj, c, v, y, the work list, free, x).  Float comparisons are an arbitrary oracle; an oracle entry
+   that finite costs cannot produce for the current row (first candidate not `temp < u1`, a single-
+   candidate row that is not strict, ...) cuts the run.  Under kernel_pre_arr — evaluated on every
+   recorded call — no access leaves its array for any number of iterations; the C locals j1 / j2 are
+   never USED as an index while unassigned (the copy j2 = j1 of an unassigned j1 is not an access). *)
+Theorem C19_arr_full_safe : forall oracle n ii jj idx count x y ulen vlen clen,
+  kernel_pre_arr n ii jj idx count y (zlen x) ulen vlen clen = true ->
+  arr_run n (zlen ii) jj idx count vlen clen oracle (arr_init ii x y) <> None.
+Proof. exact arr_full_safe. Qed.
+Print Assumptions C19_arr_full_safe.
+
+(* Partial (augment): only the closing loop `u[i] = c[idx[i] + bsearch(row i, x[i])] - v[x[i]]` —
+   with strictly increasing rows and every x[i] listed in row i, bsearch finds it and the reads are
+   in range.  NOT proved: the main loop (to_do / scan / ready / done counters: each column enters
+   each list at most once per free row — needs NoDup invariants over seven scratch arrays);
+   kernel_pre_augment is monitored on every recorded call, ASan observes the rest. *)
+Theorem C19_augment_final_loop_safe_partial : forall fuel n jj idx count x ulen vlen clen,
+  rows_ok n jj idx count clen = true -> n <= zlen x -> n <= ulen ->
+  (forall i, 0 <= i < n -> match rd x i, rd idx i, rd count i with
+                           | Some j, Some s, Some c => row_has jj s c j = true /\ 0 <= j < vlen /\ c < Z.of_nat fuel
+                           | _, _, _ => False end) ->
+  aug_final fuel n jj idx count x ulen vlen clen <> None.
+Proof. exact aug_final_safe. Qed.
+Print Assumptions C19_augment_final_loop_safe_partial.
+
+From Centro Require Model.Hull Model.Median Model.PreC19 Proofs.PreC19Safe.
+
+(* Partial (per-instance discharge, not a forall over inputs): the hull precondition IS the overflow
+   flag of C02's executable model of the kernel; general statement wanted = C02's no_overflow. *)
+Theorem C19_hull_pre_no_overflow_partial : forall ijv indexes,
+  PreC19.kernel_pre_hull ijv indexes = true ->
+  snd (Hull.convex_hull_ijv ijv indexes) = false /\ Hull.kernel_accepts ijv indexes = true /\ ijv <> [].
+Proof. exact PreC19Safe.hull_pre_no_overflow. Qed.
+Print Assumptions C19_hull_pre_no_overflow_partial.
+
+(* Full: median kernel — every pixel that passes the coordinate guards is inside data, mask AND
+   output although all three are addressed with data's strides. *)
+Theorem C19_median_pixel_offset : forall rows cols rs cs mrows mcols mrs mcs orows ocols ors ocs radius percent y x,
+  PreC19.kernel_pre_median rows cols rs cs mrows mcols mrs mcs orows ocols ors ocs radius percent = true ->
+  0 <= y < rows -> 0 <= x < cols ->
+  0 <= y * rs + x * cs < rows * cols /\ 0 <= y * rs + x * cs < mrows * mcols /\ 0 <= y * rs + x * cs < orows * ocols.
+Proof. exact PreC19Safe.median_pixel_offset. Qed.
+Print Assumptions C19_median_pixel_offset.
+
+(* Full: fine[value], coarse[value // 16], the fine block of a coarse bin, last_update_column. *)
+Theorem C19_median_hist_indices : forall v, 0 <= v < 256 ->
+  0 <= v < 256 /\ 0 <= v / 16 < 16 /\ 0 <= (v / 16) * 16 /\ (v / 16) * 16 + 16 <= 256.
+Proof. exact PreC19Safe.median_hist_indices. Qed.
+Print Assumptions C19_median_hist_indices.
+
+(* Full (C07's index theorem under the monitored precondition; Cython's % is floor-mod): the four
+   circular column indices lie inside the stripe of columns + 2*radius + 1 histograms. *)
+Theorem C19_median_pre_indices : forall rows cols rs cs mrows mcols mrs mcs orows ocols ors ocs radius percent,
+  PreC19.kernel_pre_median rows cols rs cs mrows mcols mrs mcs orows ocols ors ocs radius percent = true ->
+  forall (v : Median.variant) data mask row c,
+  let e := Median.mk_env v data mask radius percent in
+  0 <= Median.tl_br e row c < Median.e_SL e /\ 0 <= Median.tr_bl e row c < Median.e_SL e /\
+  0 <= Median.lead_ix e c < Median.e_SL e /\ 0 <= Median.trail_ix e c < Median.e_SL e.
+Proof. exact PreC19Safe.median_pre_indices. Qed.
+Print Assumptions C19_median_pre_indices.
+
+(* Full: np1D_to_vector / np2D_to_vector as fixed (element count from the data pointer) stay inside
+   the three converted arrays; at least one node for C10's heap (heap_init needs from < nv). *)
+Theorem C19_emd_pre_copies_safe : forall plen qlen pn pext qn qext crows ccols crowext pbuf qbuf crow,
+  PreC19.kernel_pre_emd plen qlen pn pext qn qext crows ccols crowext = true ->
+  zlen pbuf = pext -> zlen qbuf = qext -> zlen crow = crowext ->
+  PreC19Safe.vec_copy pbuf pn <> None /\ PreC19Safe.vec_copy qbuf qn <> None /\
+  PreC19Safe.vec_copy crow ccols <> None /\ 1 <= Z.max plen qlen.
+Proof. exact PreC19Safe.emd_pre_copies_safe. Qed.
+Print Assumptions C19_emd_pre_copies_safe.
+
+(* Full (abstract counting lemma; the reason augment's three scratch lists fit into their n entries):
+   a duplicate-free list of columns below n that all carry the current mark has room for a column
+   without the mark.  The refinement "augment keeps the marks" (on_to_do for to_do; done for scan and
+   for ready ++ pending scan) is the missing part of the main loop, together with: a non-empty scan
+   after every rebuild (= an augmenting path exists: has_PM) and the pred / x / y chain of the final
+   flip (x[y[j]] = j along the alternating path). *)
+Theorem C19_marked_list_capacity : forall (n i j : Z) (mark : Z -> Z) (l : list Z),
+  0 <= n -> NoDup l -> (forall x, In x l -> 0 <= x < n /\ mark x = i) -> 0 <= j < n -> mark j <> i ->
+  zlen l < n /\ NoDup (j :: l).
+Proof. exact marked_list_capacity. Qed.
+Print Assumptions C19_marked_list_capacity.
